@@ -58,6 +58,8 @@ package proposal
 
 // What every stored proposal satisfies (record invariant; established by the guards below at every write).
 //@ spec statesInRange(p *configapi.Proposal) bool = (p.Status.Phases.Initialize != nil ==> 0 <= p.Status.Phases.Initialize.State && p.Status.Phases.Initialize.State <= 1) && (p.Status.Phases.Validate != nil ==> 0 <= p.Status.Phases.Validate.State && p.Status.Phases.Validate.State <= 2) && (p.Status.Phases.Commit != nil ==> 0 <= p.Status.Phases.Commit.State && p.Status.Phases.Commit.State <= 1) && (p.Status.Phases.Apply != nil ==> 0 <= p.Status.Phases.Apply.State && p.Status.Phases.Apply.State <= 2) && (p.Status.Phases.Abort != nil ==> 0 <= p.Status.Phases.Abort.State && p.Status.Phases.Abort.State <= 1)
+// value maps are keyed by the paths of their values (assumed of every stored proposal; established where the maps are built, not re-checked at every status write)
+//@ spec proposalKeyed(p *configapi.Proposal) bool = keyedByPath(p.Status.RollbackValues) && (isType(p.Details, "*configapi.Proposal_Change") ==> keyedByPath(asType(p.Details, "*configapi.Proposal_Change").Change.Values))
 //@ spec proposalInv(p *configapi.Proposal) bool = statesInRange(p) && (validateState(p) == 2 ==> p.Status.Phases.Validate.Failure != nil) && (applyState(p) == 2 ==> p.Status.Phases.Apply.Failure != nil)
 
 //@ iface Store.Get(ctx, id) (result, err)
@@ -66,7 +68,7 @@ package proposal
 //@   ensures seenInitialized[id] == (err == nil && initState(result) >= 1) && seenValidated[id] == (err == nil && validateState(result) == 1) && seenCommitted[id] == (err == nil && commitState(result) == 1) && seenApplied[id] == (err == nil && applyState(result) == 1) && seenAborted[id] == (err == nil && abortState(result) == 1)
 //@   ensures err == nil ==> result.ID == id
 //@   ensures err != nil ==> result == nil
-//@   ensures err == nil ==> result != nil && fresh(result) && proposalSnapshotted(result) && proposalWellFormed(result) && proposalInv(result)
+//@   ensures err == nil ==> result != nil && fresh(result) && proposalSnapshotted(result) && proposalWellFormed(result) && proposalInv(result) && proposalKeyed(result)
 
 //@ ghost lastCreateExisted bool
 //@ iface Store.Create(ctx, proposal) (err)
